@@ -84,6 +84,8 @@ def denote(vocab, ctx, s):
         if k in leaf_names and val:
             val = ','.join(expand_alias(vocab, val))
         q_alts.append([(k, x) for x in val.split(',')] if ',' in val else [(k, val)])
+    if q and any('' in alts for alts in seg_alts) and len(segs) == 1:
+        return None      # an empty body with a query is the query form of a Sid (C02), not a search over templates
     results = {}
     any_comma = ',' in s
     for choice in itertools.product(*seg_alts):
